@@ -199,8 +199,12 @@ func Gen(seed uint64, tier string) any {
 		case x < 50:
 			ev.Fault, ev.Region, ev.Frac, ev.Bit = "flip", core.Pick(r, regions...), r.IntN(1000), r.IntN(8)
 		case x < 57:
-			ev.Fault = core.Pick(r, "unsign", "duptsig", "trunc", "sweep")
+			ev.Fault = core.Pick(r, "unsign", "duptsig", "trunc", "sweep", "field", "field", "field")
 			ev.Frac = r.IntN(1000)
+			if ev.Fault == "field" {
+				// a whole field overwritten with a value a lenient reader might take for "not set"
+				ev.Region, ev.Bit = core.Pick(r, "id", "tsig-time", "tsig-fudge", "tsig-origid", "tsig-origid", "tsig-error", "tsig-otherlen"), r.IntN(2)
+			}
 		case x < 67:
 			ev.Prior = core.Pick(r, "none", "other", "stale")
 		case x < 72:
@@ -505,6 +509,19 @@ func runBare(sc *Scenario, res *core.Result, verbose bool) {
 			b[pos] ^= 1 << uint(ev.Bit&7)
 			desc = fmt.Sprintf("flip %s@%d.%d", ev.Region, pos, ev.Bit&7)
 			res.Bump("fault.bitflip_" + ev.Region)
+		case "field":
+			reg := tsigRegions(b)
+			if rg, ok := reg[ev.Region]; ok && rg[1] > rg[0] {
+				v := byte(0)
+				if ev.Bit&1 == 1 {
+					v = 0xff
+				}
+				for i := rg[0]; i < rg[1]; i++ {
+					b[i] = v
+				}
+				desc = fmt.Sprintf("field %s := %#02x..", ev.Region, v)
+				res.Bump("fault.field_overwritten_" + ev.Region)
+			}
 		case "unsign":
 			b = oracle.StripTSIG(b)
 			res.Bump("fault.unsigned")
